@@ -256,3 +256,14 @@ def run(ctx):
     bad = [(cl, c) for cl, c in ctx.violations if cl.startswith(("spec_", "ref_"))]
     if bad:
         raise MachineryError("reference/spec disagreement: %s %s" % (bad[0][0], json.dumps(bad[0][1])[:1500]))
+
+
+def redrive(ev):
+    """decode the recorded bytes again with the recorded implementation on the current tree"""
+    if ev.get("op") != "xdec":
+        return None
+    if ev.get("dir"):
+        evs = cross_events({"ty": ev["ty"], "val": ev["val"], "tag": ev.get("case", {}).get("tag", "")})
+        return next((e for e in evs if e.get("dir") == ev["dir"]), None)
+    evs = xdec_events((small_schema(), ev["ty"], ev["val"], bytes(ev["b"]), ev.get("case", {}).get("tag", "")))
+    return next((e for e in evs if e["impl"] == ev["impl"]), None)
